@@ -170,6 +170,7 @@ func c18Run(c *fw.Ctx) {
 		y := "- service: svca\n  default:\n    from: " + hostA + "\n    to: {{backend:a}}\n    options:\n      allowed_email_addresses:\n        - alice@allowed.test\n      skip_auth_regex:\n        - '^/public/'\n" + ov +
 			"- service: down\n  default:\n    from: down.sso.test\n    to: 127.0.0.1:1\n    options:\n      allowed_email_addresses:\n        - alice@allowed.test\n" + ov +
 			"- service: slow\n  default:\n    from: slow.sso.test\n    to: {{backend:slow}}\n    options:\n      timeout: 150ms\n      allowed_email_addresses:\n        - alice@allowed.test\n" + ov +
+			"- service: port80\n  default:\n    from: port80.sso.test:80\n    to: {{backend:a}}\n    options:\n      allowed_email_addresses:\n        - alice@allowed.test\n" + ov +
 			"- service: stream\n  default:\n    from: stream.sso.test\n    to: {{backend:a}}\n    options:\n      flush_interval: 100ms\n      allowed_email_addresses:\n        - alice@allowed.test\n" + ov
 		o := harness.ProxyOpts{YAML: y, Backends: []string{"a", "slow"}, TemplateVars: map[string]string{}, CookieSecure: secure}
 		if domain {
@@ -220,7 +221,7 @@ func c18Run(c *fw.Ctx) {
 		{"hsts-duplicated", http.Header{"Strict-Transport-Security": {"max-age=1", "max-age=2; includeSubDomains"}}},
 	}
 	outcomes := []string{"proxied-200", "proxied-after-103-early-hints", "streamed-200", "streamed-after-103-early-hints", "streamed-after-102-processing", "upstream-500", "backend-down-502", "backend-stalled", "skip-auth-proxied", "sign-in-302", "xhr-401", "forbidden-403", "token-revoked-401", "internal-500",
-		"auth-only-202", "auth-only-401", "callback-error-param", "callback-missing-code", "callback-success", "sign-out", "robots", "certs", "path-cleaning-301", "favicon-404"}
+		"sign-in-302-host-with-port-80", "auth-only-202", "auth-only-401", "callback-error-param", "callback-missing-code", "callback-success", "sign-out", "robots", "certs", "path-cleaning-301", "favicon-404"}
 	protos := []string{"", "http", "https", "http, https", "https, http", "HTTPS"}
 	future, past := harness.At(time.Hour), harness.At(-time.Minute)
 
@@ -320,6 +321,9 @@ func c18Run(c *fw.Ctx) {
 		case "skip-auth-proxied":
 			target = "/public/a%20b?q=1"
 		case "sign-in-302":
+		case "sign-in-302-host-with-port-80":
+			// an upstream configured with an explicit port: the same host means the same host AND port
+			host = "port80.sso.test:80"
 		case "xhr-401":
 			hdr.Set("X-Requested-With", "XMLHttpRequest")
 		case "forbidden-403":
@@ -467,7 +471,7 @@ func init() {
 	fw.Register(&fw.Check{
 		ID:    "C18",
 		Level: "exploration",
-		Rule: "a response monitor is the only oracle. (a) dedicated product on the real proxy: outcome {proxied 200, proxied after 103 Early Hints, streamed upstream (flush_interval, no timeout handler) 200 / after 103 / after 102 (these over a real server connection so that interim responses are real), upstream 500, backend down -> 502, backend stalled -> timeout page (the backend blocks until the harness releases it), skip-auth proxied, sign-in 302 (these three also with methods POST, HEAD, TRACE, PROPFIND, DELETE), XHR 401, 403 page, token-revoked 401 page, 500 page, /oauth2/auth 202 and 401, callback with error / without code / successful (sets session, clears CSRF), sign-out, robots, certs, path-cleaning 301, favicon 404} " +
+		Rule: "a response monitor is the only oracle. (a) dedicated product on the real proxy: outcome {proxied 200, proxied after 103 Early Hints, streamed upstream (flush_interval, no timeout handler) 200 / after 103 / after 102 (these over a real server connection so that interim responses are real), upstream 500, backend down -> 502, backend stalled -> timeout page (the backend blocks until the harness releases it), skip-auth proxied, sign-in 302 (also on an upstream whose host carries the port :80; these three also with methods POST, HEAD, TRACE, PROPFIND, DELETE), XHR 401, 403 page, token-revoked 401 page, 500 page, /oauth2/auth 202 and 401, callback with error / without code / successful (sets session, clears CSRF), sign-out, robots, certs, path-cleaning 301, favicon 404} " +
 			"x upstream response headers {none, X-Frame-Options, empty nosniff, X-XSS-Protection 0, duplicated, lower-case names, HSTS max-age=0, duplicated HSTS} x header_overrides {none, X-Frame-Options: DENY} x secure cookies {off, on} x X-Forwarded-Proto {none, http, https, 'http, https', 'https, http', HTTPS} x cookie domain {unset, set} x X-Forwarded-Host {absent, foreign}; (a') each authenticator endpoint x {GET, POST, PUT} without parameters (405 and error pages); " +
 			"(b) every response produced while the quick alphabets of the C06, C13 (proxy) and C08, C09 (authenticator) harnesses are re-driven (thorough: also C01 and C07). " +
 			"Monitor: the three proxy headers exactly once with the proxy's or the override's value; with secure cookies exactly the proxy's HSTS and a 301 to https://<same host><same decoded path>?<same query> for plain HTTP; session/CSRF Set-Cookie with the configured Secure, HttpOnly, Path=/ and Domain = request host without port or the configured domain; the authenticator's six-header set on its sign-in, sign-out, OAuth and token endpoints; " +
